@@ -131,6 +131,12 @@ class World:
 
     def put(self, rec, name, obj, kind, val, odims, cyclic, scale=1.0):
         """finish a record that defines `name`; register the object when it is usable"""
+        if rec["ev"] in ("new", "gen", "from_dense"):
+            want = list(rec["dims"])
+            if rec["ev"] == "from_dense" and kind == "mpo":
+                want = [rec["dims"][rec["sites"].index(s)] for s in sorted(rec["sites"])]
+            if list(odims) != want:
+                name = ""       # (reported by ShapeExact; not used as an operand)
         flat = np.asarray(val).reshape(-1) * scale
         absnet = np.asarray(getattr(self, "last_abs", np.abs(val))).reshape(np.asarray(val).shape) * scale
         snapped = self.snap(flat, mag=float(np.max(absnet, initial=0.0)))
